@@ -64,6 +64,29 @@ where
             }
         }
     }
+    // Rendering through a formatter that carries width / fill / alignment
+    // (a caller's `{:>12}`, or a wrapper forwarding its formatter): whatever
+    // padding the implementation applies, it must surround the token - what
+    // is left after trimming the fill character is the plain rendering.
+    for v in 0..=u16::MAX {
+        let plain = T::from(v).to_string();
+        let x = T::from(v);
+        let rendered = [
+            ("{:>12}", ' ', format!("{:>12}", x)),
+            ("{:<12}", ' ', format!("{:<12}", x)),
+            ("{:^12}", ' ', format!("{:^12}", x)),
+            ("{:_>12}", '_', format!("{:_>12}", x)),
+            ("{:12}", ' ', format!("{:12}", x)),
+            ("Fwd", ' ', format!("{:>9}", Fwd(x))),
+        ];
+        for (spec, fill, text) in rendered {
+            l.tick();
+            if text.trim_matches(fill) != plain {
+                l.violation(&format!("{what}:display-with-width"), json!({"kind": what, "op": "display-with-width", "value": v, "format": spec, "got": text, "plain": plain}));
+            }
+        }
+    }
+    l.outcome(&format!("{what}:display-with-width"), || json!({"formats": ["{:>12}", "{:<12}", "{:^12}", "{:_>12}", "{:12}", "forwarding wrapper {:>9}"]}));
     // The decimal number of the generic form with leading zeros (RFC 3597 §5
     // says "decimal RR type number" and sets no width): every value, padded
     // to 5, 6, 10 and 20 digits.
@@ -117,6 +140,14 @@ where
             l.violation(&format!("{what}:accepts-garbage"), json!({"kind": what, "op": "reject", "text": bad, "parsed": v.into()}));
         }
         l.outcome(&format!("{what}:rejects"), || json!({"text": bad}));
+    }
+}
+
+/// A wrapper whose Display forwards its formatter, options included.
+struct Fwd<T>(T);
+impl<T: Display> Display for Fwd<T> {
+    fn fmt(&self, f: &mut std::fmt::Formatter<'_>) -> std::fmt::Result {
+        self.0.fmt(f)
     }
 }
 
@@ -187,7 +218,7 @@ fn main() {
     ctx.assume("mnemonic tables: the 20 types, 3 classes, 5 QTYPEs and 2 QCLASSes quandary documents (IANA values)");
     ctx.finish(
         "exploration",
-        "all 65536 values of Type/Class/Qtype/Qclass: Display->FromStr identity, Display equals the IANA mnemonic or TYPEn/CLASSn, TYPEn/CLASSn (3 case patterns) parse for every n, also with the number zero-padded to 5, 6, 10 and 20 digits (2 case patterns); all 2^len case patterns of every mnemonic; all 256 u8 for Opcode/Rcode; all 65536 ExtendedRcode->Rcode",
+        "all 65536 values of Type/Class/Qtype/Qclass: Display->FromStr identity, Display equals the IANA mnemonic or TYPEn/CLASSn, rendering under width/fill/alignment options (5 format specs and a forwarding wrapper) trims to the plain rendering for every value; TYPEn/CLASSn (3 case patterns) parse for every n, also with the number zero-padded to 5, 6, 10 and 20 digits (2 case patterns); all 2^len case patterns of every mnemonic; all 256 u8 for Opcode/Rcode; all 65536 ExtendedRcode->Rcode",
         true,
     );
 }
